@@ -23,8 +23,11 @@ def stateless_cfg(rnd):
     return c
 
 # patterns incl. strings that collide under weak string hashes (h*31+c)
-PATS = ['Aa', 'BB', 'AaAa', 'BBBB', 'AaBB', 'BBAa', 'a.', '^x', 'b+', 'C#', 'Bb', 'x$', '[', 'B', 'A', 'a.b', '^b', 'x.$', '(?i)a.b', 'A.B']
-SUBJ = ['xBBx', 'xAax', 'AaBB', 'abc', 'xbz', '', 'C#Bb', 'a\nb', 'x\n', 'A\nB\nb']
+# ... and patterns that a normalised cache key (trimmed, case-folded, whitespace-collapsed) would identify although they mean
+# different things (round 12, C11_12)
+PATS = ['Aa', 'BB', 'AaAa', 'BBBB', 'AaBB', 'BBAa', 'a.', '^x', 'b+', 'C#', 'Bb', 'x$', '[', 'B', 'A', 'a.b', '^b', 'x.$', '(?i)a.b', 'A.B',
+        ' Aa', 'Aa ', 'aa', 'AA', ' b+', 'b+ ', '\tB', 'B\n', 'a  b', 'a b', ' ', '']
+SUBJ = ['xBBx', 'xAax', 'AaBB', 'abc', 'xbz', '', 'C#Bb', 'a\nb', 'x\n', 'A\nB\nb', 'x Aa', 'Aa x', 'xaax', 'xbb y', 'a b', 'a  b', 'B']
 def regex_record(rnd):
     r = gen.record(rnd); r['s'] = rnd.choice(SUBJ); r['p'] = rnd.choice(PATS); return r
 
